@@ -558,6 +558,7 @@ pub fn c13_worlds(tier: Tier) -> Vec<WorldSpec> {
             let mut s = spec(op, e, d);
             s.cfg.max_probes = 2;
             s.cfg.data_budget = 2;
+            s.cfg.cross_act = true;
             s.name = format!("{} x2 E={} D={}", s.name, e, d);
             s
         })
